@@ -414,6 +414,9 @@ class _ScopeContext:
                     while (sent := (yield f)) is not None:
                         subrecurse = sent
 
+                    if not (a := f.a):  # node (or a parent) was deleted during the yield, if replaced then continue with the new node
+                        subrecurse = False
+
                 if subrecurse is True:  # user did send(True) so walk unconditionally
                     yield from f.walk(all, self_=False, back=back)  # if the user did send(True) (subrecurse=True) then we want to recurse uncondintionally (scope=False), otherwise subrecurse=1 and continue walking with scope=True
 
@@ -443,7 +446,7 @@ class _ScopeContext:
                     while (sent := (yield f)) is not None:
                         subrecurse = sent
 
-                if subrecurse and check_all_param(f := a.ctx.f):  # truly pedantic, but maybe the user really really really wants that .ctx?
+                if subrecurse and (a := f.a) and (ctx := getattr(a, 'ctx', None)) and check_all_param(f := ctx.f):  # truly pedantic, but maybe the user really really really wants that .ctx?, node may have been deleted or replaced during the yield
                     while (yield f) is not None:  # eat all the user's send()s
                         pass
 
